@@ -22,6 +22,55 @@ from c01 import BV_DRIVER
 PROP = "C16"
 
 
+def tracking_correspondence(claripy, solverhist, drv, rng, stats, n):
+    """the extracted tracking model against BackendZ3._add(track=True) / _unsat_core on a raw tracked Z3 solver:
+    same sequence of assertion names, and the core is what core_of selects for the names Z3 reports.  -> None | mismatch"""
+    b = claripy.backends.z3
+    for it in range(n):
+        u = solverhist.Universe(claripy, drv, tag="uct%d_" % (it % 5))
+        forms = solverhist.constraint_pool(u, rng)
+        pool = [rng.choice(forms)() for _ in range(rng.randint(2, 6))]
+        if rng.random() < 0.6:
+            k = rng.getrandbits(4)
+            pool += [u.x == k, u.x == (k + 1 + rng.getrandbits(2)) % 16]       # make an unsatisfiable set likely
+        pool = [c for c in pool if c.op != "BoolV"]
+        if not pool:
+            continue
+        batches = [[rng.choice(pool) for _ in range(rng.randint(1, 3))] for _ in range(rng.randint(1, 4))]   # repeats on purpose
+        ids = {}
+        s = b.solver()
+        try:
+            for batch in batches:
+                b.add(s, batch, track=True)
+        except claripy.errors.ClaripyError:
+            continue
+        names = {}
+        for c in pool:
+            ids.setdefault(c.hash(), len(ids) + 1)
+            names[c.hash()] = hash(b.convert(c))
+        real = [int(str(impl.children()[0])) for impl in s.assertions()]
+        sat = b.check_satisfiability(solver=s)        # "SAT" / "UNSAT" / "UNKNOWN"
+        core_names = []
+        real_core = None
+        if sat == "UNSAT":
+            core_names = [int(str(x)) for x in s.unsat_core()]
+            real_core = sorted(str(c) for c in b.unsat_core(s))
+        out = drv.ask(["track_run", [[[ids[c.hash()], names[c.hash()]] for c in batch] for batch in batches], core_names])
+        stats["corr_tracking"] += 1
+        m_names = [int(x[0]) for x in out[0]]
+        if m_names != real:
+            return {"what": "assertion names differ", "batches": [[str(c) for c in batch] for batch in batches], "model": m_names, "real": real}
+        if real_core is not None:
+            by_id = {v: k for k, v in ids.items()}
+            byhash = {c.hash(): c for c in pool}
+            m_core = sorted(str(byhash[by_id[int(i)]]) for i in out[1])
+            stats["corr_tracking_core"] += 1
+            if m_core != real_core:
+                return {"what": "unsat core differs from what the reported names select", "batches": [[str(c) for c in batch] for batch in batches],
+                        "model": m_core, "real": real_core}
+    return None
+
+
 def main(tier, seed, replay=None):
     sys.path.insert(0, REPO)
     import astio
@@ -34,7 +83,7 @@ def main(tier, seed, replay=None):
         print("replay file records:", json.dumps(r, default=str)[:1500])
         return 1
     regen_all()
-    ok_make, log = coq_make(["Proofs/FrontendSound.vo"])
+    ok_make, log = coq_make(["Proofs/FrontendSound.vo", "Proofs/TrackSound.vo"])
     pr = check_props(PROP) if ok_make else {"ok": False, "obligations": [
         {"name": "C16_*", "closed": False, "axioms": ["<does not compile>"], "ok": False}], "log": log[-3000:]}
     rep.obligations(pr, "make Proofs/FrontendSound.vo && coqc -R coq CV coq/Props/C16.v (Print Assumptions)")
@@ -46,6 +95,10 @@ def main(tier, seed, replay=None):
     fail = mismatch = None
     drv = Driver("bvdriver") if okd else None
     if drv is not None:
+        try:
+            mismatch = tracking_correspondence(claripy, solverhist, drv, random.Random(seed + 11), stats, 150 if tier == "quick" else 2500)
+        except Exception as ex:  # noqa
+            mismatch = {"exception": repr(ex)}
         iters = 260 if tier == "quick" else 12000
         for it in range(iters):
             if fail:
